@@ -735,6 +735,15 @@ def py_sorted(I, x, key, reverse):
     raise Unsupported("sorted() with symbolic keys (needs contract)")
 
 
+@model("numpy.random.default_rng")
+def np_default_rng(seed=None):
+    from .objlist import RngModel
+    if ctx().concrete:
+        import numpy as _np
+        return _np.random.default_rng(seed)
+    return RngModel("default_rng")
+
+
 @model("time.time")
 def py_time():
     """time(): an arbitrary non-decreasing clock"""
